@@ -646,6 +646,12 @@ func (ex *Executor) selectField(base Val, idx int, env *SpecEnv) (Val, error) {
 		owner := pt.Elem()
 		f := structOf(owner).Field(idx)
 		var ref *Term
+		if base.P != nil && base.P.Kind == PElem && isStruct(owner) && env.st != nil {
+			// pointer to a struct stored in a slice element (p := &s[i]): read it the way the code does
+			sv := ex.load(env.st, Val{P: base.P, Ty: ty})
+			sv.Ty = owner
+			return ex.structField(sv, idx), nil
+		}
 		if base.P != nil && base.P.Kind == PField {
 			bf := structOf(base.P.Owner).Field(base.P.Field)
 			ref = ex.subRef(env.st, base.P.Owner, bf.Name(), base.P.Base)
